@@ -85,6 +85,10 @@ pub enum Op {
     Meta,
     /// the bounded API sweep of DESIGN §3, expanded at run time from the sheet names
     Sweep,
+    /// Only meaningful as the first entry of a history: the reader is *constructed* with this header
+    /// row (`Xls::new_with_options`, the one reader that takes the option at construction) instead
+    /// of receiving it through `with_header_row` afterwards.  As a call it does nothing.
+    OpenWith(u32),
 }
 
 impl Op {
@@ -92,7 +96,7 @@ impl Op {
     pub fn does_io_when_lazy(&self) -> bool {
         !matches!(
             self,
-            Op::SetHeader(_) | Op::MergedAll | Op::MergedBySheet(_) | Op::TableNames | Op::TableNamesInSheet(_) | Op::Meta
+            Op::SetHeader(_) | Op::OpenWith(_) | Op::MergedAll | Op::MergedBySheet(_) | Op::TableNames | Op::TableNamesInSheet(_) | Op::Meta
         )
     }
 }
@@ -338,8 +342,13 @@ fn err_auto(e: calamine::Error) -> String {
     }
 }
 
-pub fn open(entry: Entry, mut disk: SimDisk, image_len: usize) -> Result<Wb, String> {
+pub fn open(entry: Entry, mut disk: SimDisk, image_len: usize, open_header: Option<u32>) -> Result<Wb, String> {
     match entry {
+        Entry::Xls if open_header.is_some() => {
+            let mut o = calamine::XlsOptions::default();
+            o.header_row = HeaderRow::Row(open_header.unwrap());
+            Xls::new_with_options(disk, o).map(Wb::Xls).map_err(|e| format!("{:?}", e))
+        }
         Entry::Xls => Xls::new(disk).map(Wb::Xls).map_err(|e| format!("{:?}", e)),
         Entry::Xlsx => Xlsx::new(disk).map(Wb::Xlsx).map_err(|e| format!("{:?}", e)),
         Entry::Xlsb => Xlsb::new(disk).map(Wb::Xlsb).map_err(|e| format!("{:?}", e)),
@@ -350,9 +359,9 @@ pub fn open(entry: Entry, mut disk: SimDisk, image_len: usize) -> Result<Wb, Str
 }
 
 /// `open` under `catch_unwind`.
-pub fn open_guarded(entry: Entry, disk: SimDisk, image_len: usize) -> Result<Wb, Outcome> {
+pub fn open_guarded(entry: Entry, disk: SimDisk, image_len: usize, open_header: Option<u32>) -> Result<Wb, Outcome> {
     let _ = guard::take_panic();
-    match catch_unwind(AssertUnwindSafe(|| open(entry, disk, image_len))) {
+    match catch_unwind(AssertUnwindSafe(|| open(entry, disk, image_len, open_header))) {
         Ok(Ok(wb)) => Ok(wb),
         Ok(Err(e)) => Err(Outcome::Err(e)),
         Err(_) => Err(Outcome::Panic(guard::take_panic().unwrap_or_default())),
@@ -521,6 +530,7 @@ impl Wb {
                 Outcome::Ok(Canon { h: 0, brief: "()".into() })
             }
             Op::Sweep => Outcome::Skipped("sweep marker (expanded by the runner)"),
+            Op::OpenWith(_) => Outcome::Skipped("construction-time option (applied by the runner)"),
             Op::Range(a) => {
                 let n = self.resolve(a);
                 match self.range(&n) {
